@@ -365,7 +365,7 @@ def r09_9(ctx, a):
         op = payload["ops"][0]
         e = strip(b.expr_of_op(op), through_calls=False)
         where = b.line_at(loc)
-        if e[0] == "call" and isinstance(e[1], str) and re.search(r"into_vec$|from_elem$", e[1]):
+        if e[0] == "call" and isinstance(e[1], str) and re.search(r"into_vec$|from_elem$|box_assume_init_into_vec_unsafe$", e[1]):
             ctx.holds("R09.9", f, "some-is-nonempty", where, "Some(vec![..]) literal")
         elif e[0] == "call" and ecall_matches(e, r"^std::vec::Vec::<.*>::(new|with_capacity)$|Default>?::default$"):
             # pushes into that local
@@ -390,9 +390,43 @@ def r09_9(ctx, a):
             else:
                 ctx.violated("R09.9", f, "some-is-nonempty", where,
                              "`%s` can return Some(<empty list>) (the list starts empty and no push dominates the return): the poll function turns that into Ready(None) through extend_*_buf, ending the adapter's stream while the source is alive" % f.path)
+        elif e[0] == "call" and ecall_matches(e, r"Iterator>?::collect$|FromIterator.*::from_iter$") and _collect_nonempty(b, e, loc):
+            ctx.holds("R09.9", f, "some-is-nonempty", where, "collect() of an iterator that is known to be non-empty here (%s)" % _collect_nonempty(b, e, loc))
         else:
             ctx.undecided("R09.9", f, "some-is-nonempty", where, "non-emptiness of `%s` not decided" % fmt(e, 3))
     return n
+
+
+_LEN_PRESERVING = r"Iterator>?::(map|rev|cloned|copied|enumerate|inspect|by_ref)$|IntoIterator>?::into_iter$"
+
+
+def _collect_nonempty(b, e, loc):
+    """why the iterator a `collect()` drains has at least one item at this point, or None. Two idioms: (a) it is (a length-preserving
+    adaptation of) a Peekable whose `peek()` is known to be Some on every path to here; (b) `repeat(x).take(a - b)` under a > b."""
+    x = e[3][0] if e[3] else None
+    facts = conds.bare(conds.dominating_facts(b, loc[0]))
+    while x is not None and x[0] == "call" and isinstance(x[1], str) and re.search(_LEN_PRESERVING, x[1]) and x[3]:
+        x = x[3][0]
+        while x is not None and x[0] in ("ref", "deref"):
+            x = x[1]
+    if x is None:
+        return None
+    if x[0] == "call" and ecall_matches(x, r"Iterator>?::peekable$"):
+        for ft in facts:
+            if ft[0] == "variant" and ft[2] == frozenset(["Some"]) and ft[1][0] == "call" and ecall_matches(ft[1], r"Peekable::<.*>::peek$") and contains(ft[1], lambda y: y == x):
+                return "its peek() is Some"
+    if x[0] == "call" and ecall_matches(x, r"Iterator>?::take$") and len(x[3]) == 2:
+        src, cnt = x[3]
+        if src[0] == "call" and ecall_matches(src, r"^std::iter::repeat(_n|_with)?$"):
+            c = strip(cnt, through_calls=False)
+            while c[0] == "field" and c[2] == "0":
+                c = c[1]
+            if c[0] == "bin" and c[1].startswith("Sub"):
+                l_, r_ = c[2], c[3]
+                for ft in facts:
+                    if ft[0] == "cmp" and ((ft[1] == "Gt" and ft[2] == l_ and ft[3] == r_) or (ft[1] == "Lt" and ft[2] == r_ and ft[3] == l_)):
+                        return "repeat(..).take(a - b) under a > b"
+    return None
 
 
 def r09_10(ctx, a):
